@@ -299,3 +299,7 @@ from . import c01 as _c01
 PROP.obligation('C02.indexes-follow-position', canaries=[
     mut.drop_stmt('transactions', 'Transaction.merge_transaction', 'self.shuffle()', 'merged inputs keep the index numbers they had in their own transactions'),
 ])(_c01.indexes_follow_position)
+
+
+from . import c13 as _c13
+PROP.obligation('C02.compact-signature')(_c13.parse)
